@@ -182,7 +182,7 @@ const (
 	//   0123456789abcdef0123456789abcdef
 	intMode = "" +
 		".........II..I.................." + // 0x00
-		"I.......II.a.a..aaaaaaaaaa......" + // 0x20
+		"I.......II.a.a.aaaaaaaaaaa......" + // 0x20
 		".aaaaaaaaaaaaaaaaaaaaaaaaaa....." + // 0x40
 		".aaaaaaaaaaaaaaaaaaaaaaaaaa......" + // 0x60
 		"................................" + // 0x80
@@ -1198,7 +1198,22 @@ func (r *reader) pushChar(src []byte) {
 func (r *reader) pushInteger(src []byte) {
 	token := string(r.makeToken(src))
 	var obj Object
-	if i, err := strconv.ParseInt(token, r.base, 64); err == nil {
+	if pos := strings.IndexByte(token, '/'); 0 < pos {
+		// A ratio such as #x1/f or #3r-2/11.
+		var num, den big.Int
+		_, nok := num.SetString(token[:pos], r.base)
+		_, dok := den.SetString(token[pos+1:], r.base)
+		if !nok || !dok || den.Sign() <= 0 {
+			r.raise("%s is not a valid base %d ratio", token, r.base)
+		}
+		if rat := new(big.Rat).SetFrac(&num, &den); rat.IsInt() {
+			if obj = (*Bignum)(rat.Num()); rat.Num().IsInt64() {
+				obj = Fixnum(rat.Num().Int64())
+			}
+		} else {
+			obj = (*Ratio)(rat)
+		}
+	} else if i, err := strconv.ParseInt(token, r.base, 64); err == nil {
 		obj = Fixnum(i)
 	} else {
 		bi := big.NewInt(0)
